@@ -171,6 +171,7 @@ struct Fixture {
         // warm-up: rotate the ring so that the scheduled program wraps at varying offsets
         if ( ty ) {
             size_t rot = size_t( c.optl( "rot", long( rotsel % ( 2 * cap + 1 ))));
+            rot_used = rot;
             for ( size_t i = 0; i < rot; ++i ) {
                 long x = 0;
                 if ( !ty->push( -long( i ) - 1 ) || !ty->pop( x ) || x != -long( i ) - 1 )
@@ -190,6 +191,9 @@ struct Fixture {
         }
     }
     std::string spec() const { return "none"; }
+    size_t rot_used = 0;
+    // configuration the Lean machine Algo/Ring needs to start from the same state (tie A)
+    std::string header_extra() const { return "cap=" + std::to_string( cap ) + " rot=" + std::to_string( rot_used ); }
 
     std::vector<std::vector<Op>> program( Rng& r, int, int nops )
     {
